@@ -1,9 +1,35 @@
 #!/bin/sh
-# Build the framework offline from files on disk: Lean models/proofs/drivers, then the
-# harness workspace (links the real crates under /repo by path, hooks on).
-set -e
+# Build the framework offline from files on disk: Lean models/proofs/drivers of every claimed
+# property, then the harness binaries (they link the real crates under /repo by path, hooks on).
 cd "$(dirname "$0")"
 export CARGO_NET_OFFLINE=true RUSTUP_TOOLCHAIN=1.96.0
-(cd lean && lake build)
-(cd harness && cargo build --workspace 2>&1 | tail -3)
-echo setup-done
+exec python3 - <<'PY'
+import json, glob, subprocess, sys
+mods, drivers, bins = set(), set(), set()
+for f in sorted(glob.glob('props/C*.json')):
+    c = json.load(open(f))
+    if not c.get('claimed', True):
+        continue
+    mods.update(c.get('lean', {}).get('proof_modules', []))
+    if c.get('lean', {}).get('driver'):
+        drivers.add(c['lean']['driver'])
+    for h in c.get('harness', []):
+        bins.add((h['crate'], h['bin']))
+rc = subprocess.call(['lake', 'build'] + sorted(mods) + sorted(drivers), cwd='lean')
+if rc != 0:
+    print('setup: lake build failed'); sys.exit(rc)
+rc = subprocess.call(['cargo', 'build', '-q', '-p', 'vtranslate'], cwd='harness')
+if rc != 0:
+    print('setup: vtranslate build failed'); sys.exit(rc)
+crates = {}
+for cr, b in sorted(bins):
+    crates.setdefault(cr, []).append(b)
+for cr, bs in crates.items():
+    cmd = ['cargo', 'build', '-q', '-p', cr]
+    for b in bs:
+        cmd += ['--bin', b]
+    rc = subprocess.call(cmd, cwd='harness')
+    if rc != 0:
+        print('setup: harness build failed for', cr, bs); sys.exit(rc)
+print('setup-done')
+PY
